@@ -41,6 +41,7 @@ KINDS = {
     "spurious-exception": "a worker that was never cancelled or interrupted gets the lock (no exception)",
     "unclean-quiescence": "at quiescence: no owner, no waiters, no task records a held or awaited lock",
     "loop-error": "no exception escapes to the event loop",
+    "holding-mismatch": "_holding_locks / _waiting_on equal the locks the task is inside / waits for",
 }
 THEOREM = {
     "mutual-exclusion": "Asynkit.C13.mutual_exclusion",
@@ -48,6 +49,7 @@ THEOREM = {
     "lost-wakeup": "Asynkit.C13.wake_in_flight",
     "spurious-exception": "Asynkit.C13.woken_waiter_finds_lock_free",
     "unclean-quiescence": "Asynkit.C13.quiescent_clean",
+    "holding-mismatch": "Asynkit.C13.holding_waiting_consistent",
 }
 NONTRIVIAL = {"fault-while-waiting", "fault-woken-not-run", "fault-while-holding", "throw-refused",
               "handover-by-giveup", "handover-contended"}
